@@ -21,9 +21,9 @@ def judge(rs):
 def run(ctx):
     rs = []
     for w in WHICH:
-        rs += sc.run_sched(ctx, w, (25 if ctx.tier == "quick" else 2000) if w == "stress" else 0, ctx.seed)
+        rs += sc.run_sched(ctx, w, (25 if ctx.tier == "quick" else 400) if w == "stress" else 0, ctx.seed)
     sm = judge(rs)
-    gis = sc.run_sched(ctx, "gcintr", 60 if ctx.tier == "quick" else 3000, ctx.seed)
+    gis = sc.run_sched(ctx, "gcintr", 60 if ctx.tier == "quick" else 1200, ctx.seed)
     mm, nsh, nok = sc.gi_evaluate(ctx, gis, "c05gi")
     for r in gis:
         sm += sc.gcintr_oracle(r)
@@ -90,7 +90,7 @@ def replay(ctx, path):
         return 1
     rs = []
     if case.get("scenario") == "gcintr":
-        gis = sc.run_sched(ctx, "gcintr", 60 if case["i"] < 60 else 3000, case["seed"])
+        gis = sc.run_sched(ctx, "gcintr", 60 if case["i"] < 60 else 1200, case["seed"])
         viol = [v for r in gis for v in sc.gcintr_oracle(r)]
         mm, _, _ = sc.gi_evaluate(ctx, [r for r in gis if r["i"] == case["i"]], "c05replay")
         viol += [dict(kind="model-mismatch", what=json.dumps(m)[:200]) for m in mm]
